@@ -1812,6 +1812,60 @@ pub fn e6_chainspace(ctx: &Ctx, name: &str, st: &mut Local, f: Sink) {
     e.exhaustive = true;
 }
 
+/// E2z: raw streams whose first two bytes are a well-formed zlib header (a non-final stored block with padding bits
+/// 2 * CINFO + 1 and LEN = 0x01xx, xx = FLG) and whose bytes from offset 2 on are a complete stream of their own (a final
+/// stored block of 0xFExx bytes): two readings of the same bytes with different plaintext and different length. The
+/// only wrapper signature that a valid raw stream can begin with is the zlib one (1F 8B has BTYPE 3, PK.. and IDAT
+/// fail the LEN/NLEN check), so this is the whole space of "header sniffing" confusions.
+pub fn e2_zlib_lookalikes(ctx: &Ctx, name: &str, st: &mut Local, f: Sink) {
+    if !ctx.engine_on(name) {
+        return;
+    }
+    let filler = text_family(1, 66_200);
+    let mut idx = 0u64;
+    let mut n = 0;
+    for cinfo in 0..8u8 {
+        let cmf = (cinfo << 4) | 8;
+        for flevel in 0..4u8 {
+            let mut flg = flevel << 6;
+            let rem = ((cmf as u32) * 256 + flg as u32) % 31;
+            if rem != 0 {
+                flg += (31 - rem) as u8;
+            }
+            let i = idx;
+            idx += 1;
+            n += 1;
+            if ctx.sel.mine(i) {
+                let e = st.eng(name);
+                e.states += 1;
+                e.transitions += 1;
+                e.nontrivial += 1;
+            }
+            if !ctx.take(name, i) {
+                continue;
+            }
+            let len = 0x0100usize | flg as usize;
+            // inner reading: D[2] = 01 (final stored block), LEN' = D[3..5] = !LEN, NLEN' = first two data bytes
+            let len_inner = (!(len as u16)) as usize;
+            let mut data: Vec<u8> = (!(len_inner as u16)).to_le_bytes().to_vec();
+            data.extend_from_slice(&filler[..len - 2]);
+            let s = Stream { blocks: vec![Block::Stored { data, pad: cmf >> 3 }, Block::Fixed { toks: vec![Tok::Lit(b'e'), Tok::Lit(b'n'), Tok::Lit(b'd')] }], final_pad: 0 };
+            let mut bytes = serialise(&s);
+            if bytes[0] != cmf || bytes[1] != flg || bytes[2] != 0x01 {
+                harness_bug("E2z: the stream does not begin with the intended zlib header");
+            }
+            let stream_len = bytes.len();
+            let want = 7 + len_inner + 9;
+            bytes.extend_from_slice(&filler[300..300 + want - stream_len]);
+            let case = StreamCase { stream_len, plain: Some(plaintext(&s)), bytes, descr: format!("raw stream beginning with the zlib header {:02x} {:02x}, bytes from offset 2 form a stored block of {} bytes", cmf, flg, len_inner) };
+            deliver(ctx, name, st, i, case, f);
+        }
+    }
+    let e = st.eng(name);
+    e.bound = format!("{} streams: every CINFO 0..=7 x FLEVEL 0..=3 (FDICT clear, FCHECK valid)", n);
+    e.exhaustive = true;
+}
+
 /// E4run: one reference at distance d into a long periodic run (period 1, 2 or 3): every earlier position of
 /// the run is a hash-chain candidate, so the chain depth needed to find the reference grows with d
 pub fn e4_runs(ctx: &Ctx, name: &str, st: &mut Local, f: Sink) {
